@@ -152,11 +152,15 @@ theorem C32_lock_teardown_atomic :
     has "Manager.handleDisconnect" true = true ∧ allW "Manager.handleDisconnect" = true ∧
     noReaderCall "Manager.handleDisconnect" = true := by decide
 
-/-- Disconnect / DisconnectAll: lookup and removal in one write-locked region. -/
+/-- Disconnect / DisconnectAll: the map is read (lookup / snapshot) and emptied in ONE write-locked region — the
+    region that reads it is the one that removes the entries — and neither goes through a separately locked
+    accessor. -/
 theorem C32_lock_disconnect_atomic :
     acq "Manager.Disconnect" = some 1 ∧ allW "Manager.Disconnect" = true ∧ has "Manager.Disconnect" true = true ∧
+    has "Manager.Disconnect" false = true ∧ noReaderCall "Manager.Disconnect" = true ∧
     acq "Manager.DisconnectAll" = some 1 ∧ allW "Manager.DisconnectAll" = true ∧
-    has "Manager.DisconnectAll" true = true := by decide
+    has "Manager.DisconnectAll" true = true ∧ has "Manager.DisconnectAll" false = true ∧
+    noReaderCall "Manager.DisconnectAll" = true := by decide
 
 /-- handleDisconnect decides "stale or not" under the lock; the model's teardown step acts on that decision at
     once. In the source nothing stands between the last Unlock and the disconnect callback — no call (such as a wait
